@@ -237,7 +237,21 @@ def conv_marker_script(hist, tid):
     return {"tid": tid, "marker": "simple", "worlds": 1, "ops": ops}
 
 
+def inductive(tier):
+    """Marker_Ind.tla: uniqueness of marker ids by an inductive invariant (design level)"""
+    ne, nm = (4, 4) if tier == "quick" else (7, 7)
+    return C.inductive_suite("marker_inductive", "Marker_Ind", tier, {"NE": ne, "NM": nm}, "NE = %d /\\ NM = %d" % (ne, nm),
+                             "CONSTANTS\n NE = 3\n NM = 3", tlc_note="3 entity identities, 3 marker ids", safe="Unique")
+
+
 def check(prop, tier, seed):
+    out = traces(prop, tier, seed)
+    if prop == "C15":
+        out.append(inductive(tier))
+    return out
+
+
+def traces(prop, tier, seed):
     params = {"tier": tier}
     key = C.suite_key("saveload", params, seed, tier)
     hit = C.cache_get(key)
